@@ -174,6 +174,12 @@ class DropletTrack:
         if len(self) == 0:
             return None
         else:
+            classes = {d.__class__ for d in self.droplets}
+            if len(classes) > 1:
+                raise TypeError(
+                    "DropletTrack data cannot be stored contiguously if it contains "
+                    "multiple droplet classes: " + ", ".join(c.__name__ for c in classes)
+                )
             d0 = self.first
             dtype = [("time", "f8")] + d0.data.dtype.descr
             result = np.empty(len(self), dtype=dtype)
